@@ -1,5 +1,358 @@
-import PoetryVerif.Model.Marker
-import PoetryVerif.Spec.Pep508
+/-
+C06 — Marker evaluation agrees with the PEP 508 reference.
+Property theorems only (helper lemmas in Proofs/MarkerEval.lean, Proofs/MarkerLeaf.lean).
+
+Model side: `parseText` (hand recogniser of markers.lark) → `compactRaw` (`_compact_markers(top_level=False)`:
+`SingleMarker.__init__` per item, `MultiMarker`/`MarkerUnion` with `_flatten_markers`) → `M.validate`.
+Reference side: `Spec.Pep508.evalSyn` (formalised from `packaging.markers`, tied to packaging by the check's
+spec-vs-reference stream).  That the public `parse_marker` additionally *simplifies* the union
+(`_compact_markers(top_level=True)` = `union(*sub_markers)`) without changing `validate` is C07's `union_sound`;
+the composition here stops at the un-simplified marker and depends on C07 for the last step.
+
+Proved for all strings (no bounds): the and/or/parenthesis structure with Python's laziness, exceptions included
+(`compact_agree`); leaf agreement for string variables with `==`/`!=` and for `extra == / !=` (`leaf_agree_*`);
+their composition for every marker text (`parse_eval_agree_partial`).  Stated, not proved
+(`leaf_agree_full_statement`): `in`/`not in` lists, reversed operands, and the version variables — with the two
+places where the statement is FALSE of model and code shown by concrete witnesses (`counterexample_*`).
+-/
+import PoetryVerif.Proofs.MarkerEval
+import PoetryVerif.Proofs.MarkerLeaf
+
+set_option linter.unusedSimpArgs false
+set_option linter.unusedVariables false
+
 namespace Poetry.C06
-theorem placeholder_to_be_replaced : True := trivial
+open Poetry Poetry.Marker Poetry.Spec.Pep508
+
+deriving instance DecidableEq for Poetry.Marker.Atom, Poetry.Marker.Syn
+
+theorem toOption_some {α : Type} {x : PyM α} {a : α} (h : x.toOption = some a) : x = .ok a := by
+  cases x with
+  | error e => cases h
+  | ok b => simp [Except.toOption] at h; rw [h]
+
+/-! ## 1. and / or / parentheses -/
+
+/-- **`_compact_markers` realises the grammar's structure** — for every syntax tree whose leaves can be built
+and are coherent (`Syn.coh`: equal-looking leaves hold equal constraints, the hypothesis under which
+`_flatten_markers`' de-duplication by `__eq__` is harmless): the un-simplified marker is coherent and validates,
+*exceptions and evaluation order included*, to the lazy evaluation `synV` of the tree, which has the recursion of
+`Spec.Pep508.evalSynAcc`: `and` binds tighter than `or`, parentheses are respected. -/
+theorem compact_agree (E : Env) (syn : Syn) (m : M) (h : compactRaw syn = .ok m) (hc : syn.coh = true) :
+    m.Coherent = true ∧ M.validate E m = synV E (.ok true) syn :=
+  compactRaw_sem E syn m h hc
+
+/-- … and when every leaf has a value that the reference shares, the lazy evaluation is the reference's strict
+one: `M.validate` commutes with `evalSyn`. -/
+theorem compact_agree_spec (E : Env) (syn : Syn) (m : M) (h : compactRaw syn = .ok m) (hc : syn.coh = true)
+    (hl : syn.agree E) : ∃ b, M.validate E m = .ok b ∧ evalSyn E syn = some b := by
+  obtain ⟨b, h1, h2⟩ := synV_spec E syn hl true
+  exact ⟨b, by rw [(compactRaw_sem E syn m h hc).2, h1], by simpa [evalSyn] using h2⟩
+
+/-- `__eq__`-equal coherent markers validate alike (the lemma behind the de-duplication) -/
+theorem eq_markers_validate_alike (E : Env) (a b : M) (ha : a.Coherent = true) (hb : b.Coherent = true)
+    (h : M.beq a b = true) : M.validate E a = M.validate E b := beq_validate E a b ha hb h
+
+/-- the tree used in the examples: `os_name == "nt" and (extra == 'a' or os.name != "x")` -/
+def exSyn : Syn :=
+  .more (.item "os_name" "==" "nt" false) false
+    (.one (.paren (.more (.item "extra" "==" "a" false) true (.one (.item "os.name" "!=" "x" false)))))
+
+def exEnv : Env := ⟨[("os_name", "nt"), ("sys_platform", "win32")], some ["A"]⟩
+
+theorem exSyn_parsed : parseText "os_name == \"nt\" and (extra == 'a' or os.name != \"x\")" = .ok exSyn :=
+  toOption_some (by decide +kernel)
+
+/-! ## 2. leaves -/
+
+/-- a literal in the examples -/
+theorem plainTok_nt : PlainTok "nt" := by
+  refine ⟨by decide, ?_⟩
+  intro c hc
+  have : c = 'n' ∨ c = 't' := by simpa using hc
+  rcases this with rfl | rfl <;> (unfold tokChar; decide)
+
+/-- **string variables, `==`**: for every string variable (aliases included), every literal without white
+space, quotes, `,`, `|` (not starting with `=`), every environment that defines the variable: the leaf
+`SingleMarker.__init__` builds validates to `env value == literal`, and so does the reference. -/
+theorem leaf_agree_string_eq (E : Env) (n v ev : String) (hn : n ∈ stringVarNames) (hv : PlainTok v)
+    (h0 : v.toList.head? ≠ some '=') (hev : E.get? (canonVar n) = some ev) :
+    itemV E n "==" v false = .ok (ev == v) ∧ evalItem n "==" v false E = some (ev == v) :=
+  ⟨(agree_string_eq E n v ev hn hv h0 hev).1, (agree_string_eq E n v ev hn hv h0 hev).2.1⟩
+
+example : "os.name" ∈ stringVarNames ∧ PlainTok "nt" ∧ "nt".toList.head? ≠ some '=' ∧
+    exEnv.get? (canonVar "os.name") = some "nt" := ⟨by decide, plainTok_nt, by decide, by decide⟩
+
+/-- **string variables, `!=`** -/
+theorem leaf_agree_string_ne (E : Env) (n v ev : String) (hn : n ∈ stringVarNames) (hv : PlainTok v)
+    (hev : E.get? (canonVar n) = some ev) :
+    itemV E n "!=" v false = .ok (ev != v) ∧ evalItem n "!=" v false E = some (ev != v) :=
+  ⟨(agree_string_ne E n v ev hn hv hev).1, (agree_string_ne E n v ev hn hv hev).2.1⟩
+
+example : "sys_platform" ∈ stringVarNames ∧ PlainTok "nt" ∧ exEnv.get? (canonVar "sys_platform") = some "win32" :=
+  ⟨by decide, plainTok_nt, by decide⟩
+
+/-- **`extra == "x"`**: membership of the PEP 503-normalised name in the normalised set of active extras -/
+theorem leaf_agree_extra_eq (E : Env) (v : String) (ex : List String) (hv : PlainTok v)
+    (h0 : v.toList.head? ≠ some '=') (hex : E.extras = some ex) :
+    itemV E "extra" "==" v false = .ok ((ex.map canonName).contains (canonName v)) ∧
+    evalItem "extra" "==" v false E = some ((ex.map canonName).contains (canonName v)) :=
+  ⟨(agree_extra_eq E v ex hv h0 hex).1, (agree_extra_eq E v ex hv h0 hex).2.1⟩
+
+/-- **`extra != "x"`** -/
+theorem leaf_agree_extra_ne (E : Env) (v : String) (ex : List String) (hv : PlainTok v)
+    (hex : E.extras = some ex) :
+    itemV E "extra" "!=" v false = .ok (!(ex.map canonName).contains (canonName v)) ∧
+    evalItem "extra" "!=" v false E = some (!(ex.map canonName).contains (canonName v)) :=
+  ⟨(agree_extra_ne E v ex hv hex).1, (agree_extra_ne E v ex hv hex).2.1⟩
+
+example : PlainTok "nt" ∧ exEnv.extras = some ["A"] ∧ (["A"].map canonName).contains (canonName "a") = true :=
+  ⟨plainTok_nt, rfl, by decide⟩
+
+/-! ### the domain -/
+
+/-- the comparison operators of version variables -/
+def verOps : List String := ["==", "!=", "<", "<=", ">", ">=", "~="]
+
+/-- the text of a release `X.Y` / `X.Y.Z` -/
+def relLit (r : List Nat) : String := Version.relText r
+
+/-- a list literal: plain tokens joined by non-empty runs of the separators ` `, `,`, `|` -/
+def listLit (t0 : String) (rest : List (String × String)) : String :=
+  t0 ++ String.join (rest.map fun p => p.1 ++ p.2)
+
+def SepRun (s : String) : Prop := s.toList ≠ [] ∧ ∀ c ∈ s.toList, isListSep c = true
+
+/-- the leaf shapes whose agreement is proved -/
+inductive ProvedLeaf (E : Env) : String → String → String → Bool → Prop
+  | strEq (n v ev : String) : n ∈ stringVarNames → PlainTok v → v.toList.head? ≠ some '=' →
+      E.get? (canonVar n) = some ev → ProvedLeaf E n "==" v false
+  | strNe (n v ev : String) : n ∈ stringVarNames → PlainTok v → E.get? (canonVar n) = some ev →
+      ProvedLeaf E n "!=" v false
+  | extraEq (v : String) (ex : List String) : PlainTok v → v.toList.head? ≠ some '=' → E.extras = some ex →
+      ProvedLeaf E "extra" "==" v false
+  | extraNe (v : String) (ex : List String) : PlainTok v → E.extras = some ex → ProvedLeaf E "extra" "!=" v false
+
+/-- every leaf shape of the property's domain (variable kind × operator × literal shape), on an environment
+that defines the variable with, for version variables, a final release -/
+inductive DomainLeaf (E : Env) : String → String → String → Bool → Prop
+  | proved {n op v sw} : ProvedLeaf E n op v sw → DomainLeaf E n op v sw
+  /-- `name in "a b,c"` / `not in`: membership by token -/
+  | strList (n op t0 : String) (rest : List (String × String)) (ev : String) : n ∈ stringVarNames →
+      op ∈ ["in", "not in"] → PlainTok t0 → (∀ p ∈ rest, SepRun p.1 ∧ PlainTok p.2) →
+      E.get? (canonVar n) = some ev → DomainLeaf E n op (listLit t0 rest) false
+  /-- `"lit" in name` / `"lit" not in name`: substring -/
+  | reversed (n op v ev : String) : n ∈ stringVarNames → op ∈ ["in", "not in"] → PlainTok v →
+      E.get? (canonVar n) = some ev → DomainLeaf E n op v true
+  /-- `python_version op "X.Y"` -/
+  | pv (op : String) (X Y : Nat) (ev : String) (cand : Version) : op ∈ verOps →
+      E.get? "python_version" = some ev → parseFinal ev = some cand →
+      DomainLeaf E "python_version" op (relLit [X, Y]) false
+  /-- `python_full_version op "X.Y"` (not `~=`) -/
+  | pfv2 (op : String) (X Y : Nat) (ev : String) (cand : Version) : op ∈ verOps → op ≠ "~=" →
+      E.get? "python_full_version" = some ev → parseFinal ev = some cand →
+      DomainLeaf E "python_full_version" op (relLit [X, Y]) false
+  /-- `python_full_version op "X.Y.Z"` -/
+  | pfv3 (op : String) (X Y Z : Nat) (ev : String) (cand : Version) : op ∈ verOps →
+      E.get? "python_full_version" = some ev → parseFinal ev = some cand →
+      DomainLeaf E "python_full_version" op (relLit [X, Y, Z]) false
+  /-- `python_version in "X.Y …"` -/
+  | pvList (op : String) (x0 : Nat × Nat) (rest : List (String × (Nat × Nat))) (ev : String) (cand : Version) :
+      op ∈ ["in", "not in"] → (∀ p ∈ rest, SepRun p.1) →
+      E.get? "python_version" = some ev → parseFinal ev = some cand →
+      DomainLeaf E "python_version" op
+        (listLit (relLit [x0.1, x0.2]) (rest.map fun p => (p.1, relLit [p.2.1, p.2.2]))) false
+  /-- `python_full_version in "X.Y.Z …"` -/
+  | pfvList (op : String) (x0 : Nat × Nat × Nat) (rest : List (String × (Nat × Nat × Nat))) (ev : String)
+      (cand : Version) : op ∈ ["in", "not in"] → (∀ p ∈ rest, SepRun p.1) →
+      E.get? "python_full_version" = some ev → parseFinal ev = some cand →
+      DomainLeaf E "python_full_version" op
+        (listLit (relLit [x0.1, x0.2.1, x0.2.2]) (rest.map fun p => (p.1, relLit [p.2.1, p.2.2.1, p.2.2.2]))) false
+
+/-- C06's leaf statement at full strength: on every leaf of the domain the model has a value and the reference
+has the same.  Proved for `ProvedLeaf` (`leaf_agree_partial`); the remaining constructors are open, and
+`counterexample_pfv_list_two_component` shows why `pfvList` demands three components. -/
+def leaf_agree_full_statement : Prop :=
+  ∀ (E : Env) (n op v : String) (sw : Bool), DomainLeaf E n op v sw →
+    ∃ b, itemV E n op v sw = .ok b ∧ evalItem n op v sw E = some b
+
+/-- the proved part: extra hypothesis = the leaf is one of the `ProvedLeaf` shapes -/
+theorem leaf_agree_partial (E : Env) (n op v : String) (sw : Bool) (h : ProvedLeaf E n op v sw) :
+    ∃ b, itemV E n op v sw = .ok b ∧ evalItem n op v sw E = some b ∧ itemCoherent n op v sw = true := by
+  cases h with
+  | strEq n v ev hn hv h0 hev => exact ⟨_, agree_string_eq E n v ev hn hv h0 hev⟩
+  | strNe n v ev hn hv hev => exact ⟨_, agree_string_ne E n v ev hn hv hev⟩
+  | extraEq v ex hv h0 hex => exact ⟨_, agree_extra_eq E v ex hv h0 hex⟩
+  | extraNe v ex hv hex => exact ⟨_, agree_extra_ne E v ex hv hex⟩
+
+example : ProvedLeaf exEnv "os.name" "!=" "nt" false :=
+  .strNe "os.name" "nt" "nt" (by decide) plainTok_nt (by decide)
+
+/-! ## 3. composition: every marker text over proved leaves -/
+
+mutual
+/-- every item of the tree is a proved leaf shape -/
+def AtomInDomain (E : Env) : Atom → Prop
+  | .item n op v sw => ProvedLeaf E n op v sw
+  | .paren m => SynInDomain E m
+def SynInDomain (E : Env) : Syn → Prop
+  | .one a => AtomInDomain E a
+  | .more a _ rest => AtomInDomain E a ∧ SynInDomain E rest
+end
+
+mutual
+theorem atom_inDomain (E : Env) : ∀ (a : Atom), AtomInDomain E a → a.agree E ∧ a.coh = true
+  | .item n op v sw, h => by
+    obtain ⟨b, h1, h2, h3⟩ := leaf_agree_partial E n op v sw h
+    exact ⟨⟨b, h1, h2⟩, h3⟩
+  | .paren m, h => by
+    have := syn_inDomain E m h
+    exact ⟨by simpa [Atom.agree] using this.1, by simpa [Atom.coh] using this.2⟩
+theorem syn_inDomain (E : Env) : ∀ (s : Syn), SynInDomain E s → s.agree E ∧ s.coh = true
+  | .one a, h => by
+    have := atom_inDomain E a h
+    exact ⟨by simpa [Syn.agree] using this.1, by simpa [Syn.coh] using this.2⟩
+  | .more a isOr rest, h => by
+    have h1 := atom_inDomain E a h.1
+    have h2 := syn_inDomain E rest h.2
+    exact ⟨by simp only [Syn.agree]; exact ⟨h1.1, h2.1⟩, by simp [Syn.coh, h1.2, h2.2]⟩
+end
+
+/-- **Parsing, compacting and validating a marker text agrees with the reference** — for every text whose
+leaves are proved shapes (any nesting depth, any number of `and`/`or`): the un-simplified marker exists, is
+coherent, validates without exception, and to the reference's value.  (`_partial`: the extra hypothesis is
+`SynInDomain` over `ProvedLeaf` instead of `DomainLeaf`; and `parse_marker`'s final `union(*…)` is C07.) -/
+theorem parse_eval_agree_partial (E : Env) (t : String) (syn : Syn) (hp : parseText t = .ok syn)
+    (hd : SynInDomain E syn) :
+    ∃ m b, compactRaw syn = .ok m ∧ m.Coherent = true ∧ M.validate E m = .ok b ∧ evalSyn E syn = some b := by
+  obtain ⟨ha, hc⟩ := syn_inDomain E syn hd
+  obtain ⟨m, hm⟩ := compactRaw_ok E syn ha
+  obtain ⟨b, h1, h2⟩ := compact_agree_spec E syn m hm hc ha
+  exact ⟨m, b, hm, (compact_agree E syn m hm hc).1, h1, h2⟩
+
+mutual
+def AtomInFullDomain (E : Env) : Atom → Prop
+  | .item n op v sw => DomainLeaf E n op v sw
+  | .paren m => SynInFullDomain E m
+def SynInFullDomain (E : Env) : Syn → Prop
+  | .one a => AtomInFullDomain E a
+  | .more a _ rest => AtomInFullDomain E a ∧ SynInFullDomain E rest
+end
+
+/-- the composition at full strength, over every leaf shape of the domain (follows from
+`leaf_agree_full_statement` plus coherence of those leaves, by the same proof) -/
+def parse_eval_agree_full_statement : Prop :=
+  ∀ (E : Env) (t : String) (syn : Syn), parseText t = .ok syn → SynInFullDomain E syn →
+    ∃ m b, compactRaw syn = .ok m ∧ M.validate E m = .ok b ∧ evalSyn E syn = some b
+
+theorem exSyn_inDomain : SynInDomain exEnv exSyn := by
+  refine ⟨.strEq "os_name" "nt" "nt" (by decide) plainTok_nt (by decide) (by decide), ?_⟩
+  refine ⟨?_, ?_⟩
+  · exact .extraEq "a" ["A"] (by
+      refine ⟨by decide, ?_⟩
+      intro c hc
+      have : c = 'a' := by simpa using hc
+      subst this; unfold tokChar; decide) (by decide) rfl
+  · exact .strNe "os.name" "x" "nt" (by decide) (by
+      refine ⟨by decide, ?_⟩
+      intro c hc
+      have : c = 'x' := by simpa using hc
+      subst this; unfold tokChar; decide) (by decide)
+
+example : ∃ m b, compactRaw exSyn = .ok m ∧ m.Coherent = true ∧ M.validate exEnv m = .ok b ∧
+    evalSyn exEnv exSyn = some b :=
+  parse_eval_agree_partial exEnv _ exSyn exSyn_parsed exSyn_inDomain
+
+example : exSyn.coh = true ∧ exSyn.agree exEnv := ⟨(syn_inDomain _ _ exSyn_inDomain).2, (syn_inDomain _ _ exSyn_inDomain).1⟩
+
+/-! ## 4. where the statement is false of model and code: concrete witnesses (replayed by the check) -/
+
+def cxEnv38 : Env := ⟨[("python_full_version", "3.8.10"), ("python_version", "3.8")], some []⟩
+def cxEnv311 : Env := ⟨[("python_full_version", "3.11.0"), ("python_version", "3.11")], some []⟩
+
+/-- a one-item tree: its marker validates to the item's value -/
+theorem single_item_marker (E : Env) (n op v : String) (sw : Bool) (b : Bool)
+    (hcoh : itemCoherent n op v sw = true) (hv : (itemV E n op v sw).toOption = some b) :
+    ∃ m, compactRaw (.one (.item n op v sw)) = .ok m ∧ M.validate E m = .ok b := by
+  have hv' := toOption_some hv
+  cases hs : mkSingle n (itemConstraintString op v sw) sw with
+  | error e => simp [itemV, hs] at hv'
+  | ok s =>
+    have hm : compactRaw (.one (.item n op v sw)) =
+        .ok (mkUnion [groupMarker [.leaf (.single s)]]) := by
+      simp [compactRaw, compactSubMarkers, compactGroups, compactAtom, hs, bind, Except.bind, pure, Except.pure]
+    refine ⟨_, hm, ?_⟩
+    rw [(compactRaw_sem E _ _ hm (by simpa [Syn.coh, Atom.coh] using hcoh)).2]
+    simp [synV, atomV, hv', conn]
+
+/-- **Known finding `pfv-list-two-component`**: `python_full_version in "3.8 3.9"` — a two-component token on
+`python_full_version` is rewritten to the wildcard `3.8.*`, so the marker is TRUE on 3.8.10, where the reference
+(token equality, `3.8.10 == 3.8` false) says FALSE.  Hence `DomainLeaf.pfvList` demands three components. -/
+theorem counterexample_pfv_list_two_component :
+    ∃ syn m, parseText "python_full_version in \"3.8 3.9\"" = .ok syn ∧ compactRaw syn = .ok m ∧
+      M.validate cxEnv38 m = .ok true ∧ evalSyn cxEnv38 syn = some false := by
+  obtain ⟨m, h1, h2⟩ := single_item_marker cxEnv38 "python_full_version" "in" "3.8 3.9" false true
+    (by decide +kernel) (by decide +kernel)
+  have he : evalItem "python_full_version" "in" "3.8 3.9" false cxEnv38 = some false := by decide +kernel
+  exact ⟨.one (.item "python_full_version" "in" "3.8 3.9" false), m, toOption_some (by decide +kernel), h1, h2,
+    by simp [evalSyn, evalSynAcc, evalAtom, he, and?]⟩
+
+/-- **D4, the padding**: `SingleMarker("python_full_version", "~=3.10")` is stored as `~= "3.10.0"` — the same
+object as for the text `~=3.10.0` … -/
+theorem counterexample_compat_padding :
+    (leafPrepare "python_full_version" "~=3.10" false).toOption =
+      some ⟨"python_full_version", "~=", "3.10.0", false, "~=3.10.0", .version true⟩ ∧
+    (mkSingle "python_full_version" "~=3.10" false).toOption =
+      (mkSingle "python_full_version" "~=3.10.0" false).toOption := by
+  constructor <;> decide +kernel
+
+/-- … which changes the meaning: `python_full_version ~= "3.10"` (reference: `>= 3.10, == 3.*`) is TRUE on
+3.11.0, the padded marker (`>= 3.10.0, == 3.10.*`) is FALSE.  Hence `~=` is in the domain only with three
+components on `python_full_version` (`DomainLeaf.pfv2` excludes it). -/
+theorem counterexample_compat_two_component :
+    ∃ syn m, parseText "python_full_version ~= \"3.10\"" = .ok syn ∧ compactRaw syn = .ok m ∧
+      M.validate cxEnv311 m = .ok false ∧ evalSyn cxEnv311 syn = some true := by
+  obtain ⟨m, h1, h2⟩ := single_item_marker cxEnv311 "python_full_version" "~=" "3.10" false false
+    (by decide +kernel) (by decide +kernel)
+  have he : evalItem "python_full_version" "~=" "3.10" false cxEnv311 = some true := by decide +kernel
+  exact ⟨.one (.item "python_full_version" "~=" "3.10" false), m, toOption_some (by decide +kernel), h1, h2,
+    by simp [evalSyn, evalSynAcc, evalAtom, he, and?]⟩
+
+/-! ## 5. ties to the source constants (regenerated from /repo on every run) -/
+
+/-- the regex `matchPattern1` / `pattern1Ops` implement by hand -/
+theorem tie_pattern1 :
+    Gen.singleMarkerPattern1 = "(?i)^(?P<op>~=|!=|>=?|<=?|==?=?|not in|in)?\\s*(?P<value>.+)$" := rfl
+
+/-- the separator `splitListValue` and `Spec.Pep508.isListSep` implement -/
+theorem tie_list_separator : Gen.markerValueSeparatorRe = "[ ,|]+" := rfl
+
+/-- `ALIASES` is the reference's alias table (as sets), and both resolve every name alike -/
+theorem tie_aliases :
+    (∀ p, p ∈ Gen.markerAliases ↔ p ∈ refAliases) ∧ Gen.markerAliases.length = refAliases.length := by
+  constructor
+  · intro p
+    constructor <;> intro h
+    · have : Gen.markerAliases.all (fun q => refAliases.contains q) = true := by decide
+      exact List.contains_iff_mem.1 (List.all_eq_true.1 this p h)
+    · have : refAliases.all (fun q => Gen.markerAliases.contains q) = true := by decide
+      exact List.contains_iff_mem.1 (List.all_eq_true.1 this p h)
+  · decide
+
+/-- the lists `SingleMarker.__init__` branches on, as the leaf proofs case-split on them -/
+theorem tie_version_like_names :
+    Gen.versionLikeMarkerNames = ["platform_release", "python_full_version", "python_version"] := rfl
+
+theorem tie_python_version_markers :
+    Gen.pythonVersionMarkers = ["python_full_version", "python_version"] := rfl
+
+/-- no string variable of the domain is version-like, none is `extra`, and the model's alias resolution is the
+reference's on each of them -/
+theorem tie_string_vars (n : String) (h : n ∈ stringVarNames) :
+    Gen.versionLikeMarkerNames.contains n = false ∧ aliasName n = canonVar n ∧
+    versionVars.contains (canonVar n) = false :=
+  ⟨(stringVar_facts n h).2.1, (stringVar_facts n h).2.2.2.1, (stringVar_facts n h).2.2.2.2.2.1⟩
+
+example : "platform.python_implementation" ∈ stringVarNames := by decide
+
 end Poetry.C06
